@@ -84,6 +84,48 @@ def vec_setm_summary(C):
     return summ
 
 
+def setz_capacity(C, fn, name, leaves, rep, loc, dom=None):
+    """B12: changing the element size must not make the container claim more bytes than it owns: the new capacity is the number
+    of WHOLE new elements in the mem_ * siz_ bytes it has - floor((mem_ * siz_) / siz'), nothing added to the dividend"""
+    S = C.S
+    probs, unk, n = [], [], 0
+    memk, sizk = ('ctx', C.off['mem_']), ('ctx', C.off['siz_'])
+    for lf in leaves:
+        if memk not in lf.store or sizk not in lf.store:
+            unk.append('a path does not store both the capacity and the element size')
+            continue
+        n += 1
+        m2, s2 = sp.sympify(lf.store[memk][0]), sp.sympify(lf.store[sizk][0])
+        if str(getattr(m2, 'func', '')) != 'i_udiv' or sp.expand(m2.args[1] - s2) != 0:
+            unk.append('new capacity %s is not a quotient by the new element size %s' % (m2, s2))
+            continue
+        N = sp.expand(dom.strip_wrap(m2.args[0]) if dom is not None else m2.args[0])
+        owned = [x for x in N.free_symbols if str(x) == 'mem_' or (str(x).startswith('M') and str(x)[1:].isdigit())]
+        if len(owned) == 1 and sp.expand(N - owned[0] * S('siz_')) == 0:
+            continue                                            # floor(bytes owned / new size)
+        if len(owned) == 1:
+            extra = sp.expand(N - owned[0] * S('siz_'))
+            # something is added to the bytes owned before dividing: if it can be positive, a partial trailing element is counted
+            vals = []
+            for v_ in (1, 2, 3, 7, 12):
+                ev = extra.subs({x: v_ for x in extra.free_symbols})
+                if ev.is_number:
+                    vals.append(ev)
+            if vals and any(v_ > 0 for v_ in vals):
+                probs.append('the new capacity is (%s) / %s: %s is added to the %s bytes owned before dividing, so a partial trailing element is counted as a whole one '
+                             '(32 bytes, new size 12: 3 elements = 36 bytes)' % (N, s2, extra, owned[0] * S('siz_')))
+                continue
+            if vals and all(v_ <= 0 for v_ in vals) and len(vals) == 5:
+                continue      # fewer bytes than owned are divided: a smaller claim is safe
+        unk.append('new capacity %s: not recognised as the whole elements in the bytes owned' % m2)
+    if probs:
+        rep.bad('B12', name, '; '.join(sorted(set(probs))[:2]), loc=loc, key='%s: capacity after the element size changed' % name)
+    elif unk or not n:
+        rep.unk('B12', name, '; '.join(sorted(set(unk))[:2]) or 'no path stores the fields', loc=loc)
+    else:
+        rep.ok('B12', name, 'on all %d paths the new capacity is floor(mem_ * siz_ / new size): siz_ * mem_ never exceeds the bytes owned' % n, loc=loc)
+
+
 def analyse(ctx, C, fn, rep):
     name = fn.name
     loc = fn.loc(fn.entry.instrs[0])
@@ -231,6 +273,8 @@ def analyse(ctx, C, fn, rep):
         C04_sched.check(C, fn, name, dom, leaves, loop_leaves, facts0, rep)
     except (Unsupported, fm.NonLinear) as e:
         rep.unk('B11', name, str(e), loc=loc)
+    if name.endswith('_setz'):
+        setz_capacity(C, fn, name, leaves, rep, loc, dom)
     sym = name
     if viol:
         # group by effect site: one finding per site
@@ -405,6 +449,7 @@ def run(ctx):
     rep.floor('B10', 6)
     rep.floor('B2', 50)
     rep.floor('B11', 12)
+    rep.floor('B12', 2)
 
 
 def sorted_guards(ctx, C, rep):
